@@ -1,7 +1,156 @@
 package main
 
-// Self-tests: positive examples and the mutant corpus (thorough tier).
+// Self-tests of the thorough tier: the mutant corpus. Each patch (seeded changes from independent
+// sub-agents under /verif/seeded, reverts of the fix commits under /verif/mutants) is applied to a
+// scratch copy of the CURRENT /repo working tree outside /repo and /verif, analysed in its own
+// process, and removed. The check for the property must report a violation on every mutant that
+// /verif/mutants/expect.json lists for it. Still static: mutated source is analysed, never run.
+
+import (
+	"encoding/json"
+	"fmt"
+	"os"
+	"os/exec"
+	"path/filepath"
+	"sort"
+	"strings"
+	"sync"
+)
 
 func cmdSelftest(args []string) int { return 0 }
 
-func runSelftests(r *Report, id, repo, verif string) {}
+type mutantResult struct {
+	Name     string `json:"name"`
+	Status   string `json:"status"` // detected | MISSED | skipped (patch does not apply)
+	Rules    string `json:"rules,omitempty"`
+	Expected bool   `json:"expected"`
+}
+
+func loadExpect(verif string) (map[string][]string, error) {
+	b, err := os.ReadFile(filepath.Join(verif, "mutants", "expect.json"))
+	if err != nil {
+		return nil, err
+	}
+	var f struct {
+		Expect map[string][]string `json:"expect"`
+	}
+	if err := json.Unmarshal(b, &f); err != nil {
+		return nil, err
+	}
+	return f.Expect, nil
+}
+
+func patchPath(verif, name string) string {
+	p := filepath.Join(verif, "seeded", name, "patch.diff")
+	if _, err := os.Stat(p); err == nil {
+		return p
+	}
+	return filepath.Join(verif, "mutants", name+".patch")
+}
+
+func runSelftests(r *Report, id, repo, verif string) {
+	exp, err := loadExpect(verif)
+	if err != nil {
+		r.Undecided(id+"-selftest", "mutants/expect.json", "-", err.Error())
+		return
+	}
+	var names []string
+	for n, props := range exp {
+		for _, p := range props {
+			if p == id {
+				names = append(names, n)
+			}
+		}
+	}
+	sort.Strings(names)
+	if len(names) == 0 {
+		r.Undecided(id+"-selftest", "no mutant lists this property", "-", "the corpus has no change this check is expected to detect")
+		return
+	}
+	self, _ := os.Executable()
+	results := make([]mutantResult, len(names))
+	sem := make(chan struct{}, 6)
+	var wg sync.WaitGroup
+	for i, n := range names {
+		wg.Add(1)
+		go func(i int, n string) {
+			defer wg.Done()
+			sem <- struct{}{}
+			defer func() { <-sem }()
+			results[i] = runMutant(self, id, repo, verif, n)
+		}(i, n)
+	}
+	wg.Wait()
+	det, skip := 0, 0
+	for _, m := range results {
+		switch m.Status {
+		case "detected":
+			det++
+			r.OK(id+"-selftest", "mutant "+m.Name+" is reported", "-", "VIOLATION on the mutated scratch copy", m.Rules)
+		case "skipped":
+			skip++
+			r.Ledger(id+"-selftest", "mutant "+m.Name+" skipped", "-", "patch does not apply to the current tree", "the code it targets changed; not counted")
+		default:
+			r.Undecided(id+"-selftest", "mutant "+m.Name+" is reported", "-", "the check exits 0 on a scratch copy with "+patchPath(verif, m.Name)+" applied although the corpus expects a violation: a rule lost its teeth")
+		}
+	}
+	r.Extra["selftest_mutants"] = results
+	r.Extra["selftest_summary"] = fmt.Sprintf("%d mutants expected for %s: %d detected, %d skipped", len(names), id, det, skip)
+}
+
+func runMutant(self, id, repo, verif, name string) mutantResult {
+	res := mutantResult{Name: name, Expected: true}
+	tmp, err := os.MkdirTemp("", "dhcpverif-mutant-")
+	if err != nil {
+		res.Status = "skipped"
+		return res
+	}
+	defer os.RemoveAll(tmp)
+	src := filepath.Join(tmp, "repo")
+	// copy the working tree without .git
+	cp := exec.Command("rsync", "-a", "--exclude", ".git", repo+"/", src+"/")
+	if out, err := cp.CombinedOutput(); err != nil {
+		res.Status = "skipped"
+		res.Rules = "copy failed: " + string(out)
+		return res
+	}
+	ap := exec.Command("git", "apply", "--unsafe-paths", "--directory="+src, patchPath(verif, name))
+	ap.Dir = tmp
+	if _, err := ap.CombinedOutput(); err != nil {
+		// try patch(1)
+		pp := exec.Command("patch", "-p1", "-s", "-d", src, "-i", patchPath(verif, name))
+		if _, err2 := pp.CombinedOutput(); err2 != nil {
+			res.Status = "skipped"
+			return res
+		}
+	}
+	// private verif dir: specs + known findings, evidence goes to the scratch dir
+	tv := filepath.Join(tmp, "verif")
+	os.MkdirAll(filepath.Join(tv, "spec"), 0o755)
+	for _, f := range []string{"spec/ledger.json", "spec/layouts.json", "spec/builders.json", "known_findings.json"} {
+		if b, err := os.ReadFile(filepath.Join(verif, f)); err == nil {
+			os.WriteFile(filepath.Join(tv, f), b, 0o644)
+		}
+	}
+	cmd := exec.Command(self, "check", id, "--tier", "quick", "--repo", src, "--verif", tv)
+	out, _ := cmd.CombinedOutput()
+	code := cmd.ProcessState.ExitCode()
+	if code == 1 && strings.Contains(string(out), "VIOLATION property="+id) {
+		res.Status = "detected"
+		var rules []string
+		seen := map[string]bool{}
+		for _, l := range strings.Split(string(out), "\n") {
+			if i := strings.Index(l, "rule="); i >= 0 {
+				rl := strings.Fields(l[i+5:])[0]
+				if !seen[rl] {
+					seen[rl] = true
+					rules = append(rules, rl)
+				}
+			}
+		}
+		res.Rules = strings.Join(rules, " ")
+		return res
+	}
+	res.Status = "MISSED"
+	return res
+}
